@@ -391,7 +391,7 @@ def rule_c(ctx: Context, R: Reporter):
                     flush_nodes.append(n)
                 if ctx.res.external_name(fi, c) in ("os.fsync", "os.fdatasync") and handle.id in names_of(c):
                     fsync_nodes.append(n)
-        exits_of_with = {t for b in body_ids | {with_node.id} for (t, _) in cfg.succ[b] if t not in body_ids and t != with_node.id}
+        exits_of_with = {t for b in body_ids | {with_node.id} for (t, lab_) in cfg.succ[b] if t not in body_ids and t != with_node.id and not (lab_ and lab_[0] == "exc")}
         normal_exits = {t for t in exits_of_with if t != cfg.raise_exit.id and cfg.nodes[t].kind != "except"}
 
         def all_paths_pass(src, targets, through):
@@ -906,6 +906,56 @@ def rule_j(ctx: Context, R: Reporter):
     R.floor("C08.j", "run-time checkpoint writers", n, 1)
 
 
+def rule_k(ctx: Context, R: Reporter):
+    """C08.k  the rename that publishes a checkpoint under its final name runs only after the write succeeded: no
+    os.replace / os.rename / shutil.move (or Path.replace / rename of a temporary) sits in a `finally:` block, in an
+    exception handler, or in an `__exit__` that does not test its exception argument.  Otherwise a save aborted by an
+    exception (KeyboardInterrupt, SystemExit from a signal handler, an I/O error) renames the partial temporary over
+    the previous good checkpoint."""
+    n = 0
+    for fi in ctx.prog.functions.values():
+        parents = {}
+        for p_ in ast.walk(fi.node):
+            for c_ in ast.iter_child_nodes(p_):
+                parents[id(c_)] = p_
+        for c in calls_in(fi.node):
+            en = ctx.res.external_name(fi, c) or ""
+            is_rename = en in ("os.replace", "os.rename", "os.renames", "shutil.move") or (
+                isinstance(c.func, ast.Attribute) and c.func.attr in ("replace", "rename") and len(c.args) == 1 and any(t in norm_text(c.func.value).lower() for t in ("temp", "tmp")))
+            if not is_rename:
+                continue
+            n += 1
+            why = None
+            x = c
+            child = c
+            while id(x) in parents:
+                child, x = x, parents[id(x)]
+                if isinstance(x, ast.Try) and any(child is y for y in x.finalbody):
+                    why = "a `finally:` block (runs on the exceptional exit too)"
+                    break
+                if isinstance(x, ast.ExceptHandler):
+                    why = "an exception handler"
+                    break
+                if x is fi.node:
+                    break
+            if why is None and fi.name == "__exit__":
+                exc = [p for p in fi.params if p != "self"]
+                flow = flow_of(fi.node)
+                at = flow.node_containing(c)
+                guarded = False
+                for (t, pol) in (conds_holding_at(flow.cfg, at) if at is not None else []):
+                    for (a, p) in split_cond(t, pol):
+                        nt = is_none_test(a)
+                        if nt is not None and isinstance(nt[0], ast.Name) and nt[0].id in exc and (nt[1] is True) == p:
+                            guarded = True
+                if not guarded:
+                    why = "`__exit__`, which also runs when the block raised, without testing its exception argument"
+            R.check("C08.k", "the publishing rename runs only after a successful write", why is None, fi, c,
+                    msg=f"{fi.short}: `{unparse(c)[:60]}` is in {why}: a save interrupted by an exception renames the partially written temporary over the checkpoint's final name "
+                        f"and destroys the previous good checkpoint", key=f"rename-on-error:{fi.short}")
+    R.floor("C08.k", "renames that publish a file", n, 2)
+
+
 def rule_g(ctx: Context, R: Reporter):
     """The object pickled into the checkpoint is the live object itself under a
     pool-less configuration swap (restored afterwards); never a shallow copy,
@@ -1158,6 +1208,7 @@ def run(ctx: Context, R: Reporter):
     R.guard(rule_f, ctx, R)
     R.guard(rule_i, ctx, R)
     R.guard(rule_j, ctx, R)
+    R.guard(rule_k, ctx, R)
 
 
 def variants():
@@ -1166,6 +1217,8 @@ def variants():
     core = "tempest/core.py"
     sm = "tempest/state_manager.py"
     return [
+        Variant("k-rename-in-finally", "bad", _rename_in_finally(True), ["C08.k"], quick=True),
+        Variant("k-benign-cleanup-in-finally", "benign", _rename_in_finally(False)),
         Variant("i-float32-history", "bad", insert_after(core, "SamplerCore.save_sampler_state", "d = self.state.to_dict()", "d['_history'] = {k: [np.asarray(a, dtype=np.float32) for a in v] for k, v in d['_history'].items()}"), ["C08.i"], quick=True),
         Variant("i-loader-filters", "bad", insert_before(core, "SamplerCore.load_sampler_state", "self.state.update_from_dict(d)", "for sec in ('_current', '_history'):\n    d[sec] = dict(d[sec])"), ["C08.i"]),
         Variant("i-loader-imports-copy", "bad", replace_stmt(core, "SamplerCore.load_sampler_state", "self.state.update_from_dict(d)", "self.state.update_from_dict({k: v for k, v in d.items() if k != 'n_dim'})"), ["C08.i", "C08.a", "C08.d"]),
@@ -1222,3 +1275,23 @@ def _to_write_bytes(node, tree):
     from ..variants import parse_stmts, replace_in_body
 
     return replace_in_body(node, lambda st: isinstance(st, ast.With) and "dump" in ast.unparse(st), lambda st: parse_stmts("temp_path.write_bytes(dill.dumps(d))"))
+
+
+def _rename_in_finally(bad: bool):
+    """the publishing rename moved into a finally block (bad) / a temp-file cleanup in the finally block (benign)"""
+    from ..variants import edit, parse_stmts
+
+    def fn(node, tree):
+        body = node.body
+        for i, st in enumerate(body):
+            if isinstance(st, ast.With) and i + 1 < len(body) and isinstance(body[i + 1], ast.Expr) and "os.replace" in ast.unparse(body[i + 1]):
+                ren = body[i + 1]
+                if bad:
+                    body[i:i + 2] = [ast.Try(body=[st], handlers=[], orelse=[], finalbody=[ren])]
+                else:
+                    cleanup = parse_stmts("if temp_path.exists():\n    temp_path.unlink()")
+                    body[i:i + 2] = [ast.Try(body=[st, ren], handlers=[], orelse=[], finalbody=cleanup)]
+                return True
+        return False
+
+    return edit("tempest/core.py", "SamplerCore.save_sampler_state", fn)
